@@ -413,3 +413,306 @@ Proof.
   apply build_from_sound in He. destruct He as [v [Hv [-> [Hne _]]]]. cbn [mk_entry e_id]. split; [assumption|].
   exists (v_slot v). split; [unfold listed_slots; apply in_map_iff; exists v; split; auto | reflexivity].
 Qed.
+
+(* ------------------------------------------------------------------------------------------------ the traversals meet the same positions *)
+
+Lemma opt_vis_in : forall k o v, In v (opt_vis k o) <-> exists s, o = Some s /\ v = vis k s.
+Proof.
+  intros k [s|] v; simpl; split; intro H.
+  - destruct H as [<-|[]]. eauto.
+  - destruct H as [s' [E ->]]. inversion E; auto.
+  - destruct H.
+  - destruct H as [s' [E _]]; discriminate.
+Qed.
+
+Ltac inl := repeat first [setoid_rewrite in_app_iff | setoid_rewrite in_flat_map | setoid_rewrite in_map_iff
+                         | setoid_rewrite filter_In | setoid_rewrite opt_vis_in | progress simpl In].
+Ltac inlr := repeat (rewrite in_app_iff in * || rewrite in_flat_map in * || rewrite in_map_iff in * || rewrite filter_In in * || simpl In in *).
+Ltac brk := repeat match goal with
+  | H : _ \/ _ |- _ => destruct H
+  | H : exists _, _ |- _ => destruct H
+  | H : _ /\ _ |- _ => destruct H
+  | H : False |- _ => destruct H
+  end.
+
+Lemma in_if_list : forall (A : Type) (b : bool) (l : list A) x, In x (if b then l else []) <-> b = true /\ In x l.
+Proof. intros A [|] l x; simpl; split; intro H; try tauto. destruct H; discriminate. Qed.
+
+Lemma in_import_slots : forall st s, In s (import_slots st) <->
+  (exists k, In k (st_comps st) /\ cs_imp k = Some s) \/ (exists u, In u (st_units st) /\ us_imp u = Some s).
+Proof.
+  intros st s. unfold import_slots. rewrite in_app_iff, !in_flat_map. split.
+  - intros [[k [Hk H]]|[u [Hu H]]]; [left; exists k | right; exists u]; split; auto.
+    + destruct (cs_imp k); simpl in H; [destruct H as [->|[]]; reflexivity | destruct H].
+    + destruct (us_imp u); simpl in H; [destruct H as [->|[]]; reflexivity | destruct H].
+  - intros [[k [Hk H]]|[u [Hu H]]]; [left; exists k | right; exists u]; split; auto; rewrite H; left; reflexivity.
+Qed.
+
+(* the id-carrying positions of a structure, as a predicate; [selc] says which components have a component_ref *)
+Definition UnitsSpec (u : units_s) (p : kind * nat) : Prop :=
+  p = (KUnits, us_slot u) \/ (exists i, In i (us_items u) /\ p = (KUnit, i)).
+Definition CompSpec (selc : comp_s -> bool) (k : comp_s) (p : kind * nat) : Prop :=
+  p = (KComp, cs_slot k) \/ (selc k = true /\ p = (KCompRef, cs_enc k))
+  \/ (exists v, In v (cs_vars k) /\ (p = (KVar, vs_slot v) \/ exists e, In e (vs_eqs v) /\ (p = (KMap, es_map e) \/ p = (KConn, es_conn e))))
+  \/ (exists r, In r (cs_resets k) /\ (p = (KReset, rs_slot r) \/ p = (KTestValue, rs_tv r) \/ p = (KResetValue, rs_rv r))).
+Definition PosSpec (selc : comp_s -> bool) (st : structure) (p : kind * nat) : Prop :=
+  p = (KModel, st_model st) \/ p = (KEncaps, st_enc st)
+  \/ (exists s, In s (import_slots st) /\ p = (KImport, s))
+  \/ (exists u, In u (st_units st) /\ UnitsSpec u p)
+  \/ (exists k, In k (st_comps st) /\ CompSpec selc k p).
+
+Ltac witness :=
+  first
+    [ match goal with |- exists x, vpos x = (?k, ?s) /\ _ => exists (vis k s); split; [reflexivity|] end;
+      inl; solve [firstorder eauto]
+    | match goal with Hv : In ?v (cs_vars _), He : In ?e (vs_eqs ?v) |- exists x, vpos x = (?k, ?s) /\ _ =>
+        exists (vis2 k s (vs_slot v) (es_other e)); split; [reflexivity|] end;
+      inl; solve [firstorder eauto] ].
+
+Lemma in_list_visits : forall st p, In p (map vpos (list_visits st)) <-> PosSpec (fun _ => true) st p.
+Proof.
+  intros st p. unfold PosSpec, UnitsSpec, CompSpec. setoid_rewrite in_import_slots.
+  unfold list_visits, list_units, list_comp, list_var, list_reset.
+  rewrite in_map_iff. split.
+  - intros [v [<- Hv]]. repeat (progress (inlr; try rewrite opt_vis_in in *; brk; subst)); unfold vpos; simpl.
+    all: solve [firstorder eauto].
+  - intro H. brk; subst.
+    all: witness.
+Qed.
+
+Local Opaque import_slots.
+Lemma in_positions_gen : forall selc st p, In p (positions_gen selc st) <-> PosSpec selc st p.
+Proof.
+  intros selc st p. unfold PosSpec, UnitsSpec, CompSpec, positions_gen. split.
+  - intro H. repeat (progress (inlr; brk; subst)). all: solve [firstorder eauto].
+  - intro H. brk; subst; inl. all: solve [firstorder eauto].
+Qed.
+
+Ltac inlf := repeat first [setoid_rewrite in_app_iff | setoid_rewrite in_flat_map | setoid_rewrite in_map_iff
+                          | setoid_rewrite filter_In | setoid_rewrite opt_vis_in | setoid_rewrite in_if_list
+                          | setoid_rewrite andb_true_iff | progress simpl In].
+
+(* the positions doSetComponentTreeTypeIds visits in one component, restricted to the selected kinds *)
+Lemma in_assign_comp : forall sel k p,
+  In p (map vpos (assign_comp_visits sel k)) <-> sel (fst p) = true /\ CompSpec in_hierarchy k p.
+Proof.
+  intros sel k p. unfold CompSpec, assign_comp_visits. rewrite in_map_iff. split.
+  - intros [v [<- Hv]].
+    repeat (progress (inlr; try rewrite in_if_list in *; try rewrite andb_true_iff in *; brk; subst)); unfold vpos; simpl.
+    all: solve [firstorder eauto].
+  - intros [Hs H]. brk; subst; simpl in Hs.
+    all: first
+      [ match goal with |- exists x, vpos x = (?k, ?s) /\ _ => exists (vis k s); split; [reflexivity|] end;
+        inlf; solve [firstorder eauto]
+      | match goal with Hv : In ?v (cs_vars _), He : In ?e (vs_eqs ?v) |- exists x, vpos x = (?k, ?s) /\ _ =>
+          exists (vis2 k s (vs_slot v) (es_other e)); split; [reflexivity|] end;
+        inlf; solve [firstorder eauto] ].
+Qed.
+
+Lemma in_map_flat_map : forall (A B C : Type) (g : B -> C) (f : A -> list B) l p,
+  In p (map g (flat_map f l)) <-> exists x, In x l /\ In p (map g (f x)).
+Proof.
+  intros. rewrite in_map_iff. split.
+  - intros [y [<- Hy]]. apply in_flat_map in Hy. destruct Hy as [x [Hx Hy]]. exists x; split; auto. apply in_map; assumption.
+  - intros [x [Hx Hp]]. apply in_map_iff in Hp. destruct Hp as [y [<- Hy]]. exists y; split; auto. apply in_flat_map; eauto.
+Qed.
+
+Lemma in_comp_tree_visits : forall sel st p,
+  In p (map vpos (flat_map (assign_comp_visits sel) (st_comps st))) <->
+  sel (fst p) = true /\ exists k, In k (st_comps st) /\ CompSpec in_hierarchy k p.
+Proof.
+  intros. rewrite in_map_flat_map. setoid_rewrite in_assign_comp. firstorder.
+Qed.
+
+Lemma in_import_visits : forall st p, In p (map vpos (import_visits st)) <-> exists s, In s (import_slots st) /\ p = (KImport, s).
+Proof.
+  intros. unfold import_visits. rewrite map_map. rewrite in_map_iff. unfold vpos; simpl. firstorder.
+Qed.
+Lemma in_units_visits : forall st p, In p (map vpos (units_visits st)) <-> exists u, In u (st_units st) /\ p = (KUnits, us_slot u).
+Proof.
+  intros. unfold units_visits. rewrite map_map. rewrite in_map_iff. unfold vpos; simpl. firstorder.
+Qed.
+Lemma in_unit_visits : forall st p, In p (map vpos (unit_visits st)) <-> exists u, In u (st_units st) /\ exists i, In i (us_items u) /\ p = (KUnit, i).
+Proof.
+  intros. unfold unit_visits. rewrite in_map_flat_map. setoid_rewrite map_map. setoid_rewrite in_map_iff.
+  unfold vpos; simpl. firstorder.
+Qed.
+
+Lemma in_assign_all : forall st p, In p (map vpos (assign_all_visits st)) <-> PosSpec in_hierarchy st p.
+Proof.
+  intros st p. unfold assign_all_visits. rewrite !map_app, !in_app_iff.
+  rewrite in_import_visits, in_units_visits, in_unit_visits, in_comp_tree_visits.
+  unfold PosSpec, UnitsSpec. simpl. firstorder.
+Qed.
+
+(* assignIds(type) visits exactly the positions of that kind that assignAllIds visits *)
+Lemma in_assign_type : forall st k p, k <> KMath ->
+  (In p (map vpos (assign_type_visits st k)) <-> fst p = k /\ PosSpec in_hierarchy st p).
+Proof.
+  intros st k p Hk.
+  assert (Tree : forall k0, In p (map vpos (flat_map (assign_comp_visits (kind_eqb k0)) (st_comps st))) <->
+                            fst p = k0 /\ exists c, In c (st_comps st) /\ CompSpec in_hierarchy c p).
+  { intro k0. rewrite in_comp_tree_visits, kind_eqb_eq. intuition. }
+  unfold PosSpec, UnitsSpec, CompSpec in *.
+  destruct k; try congruence; unfold assign_type_visits;
+    rewrite ?Tree, ?in_import_visits, ?in_units_visits, ?in_unit_visits; simpl; clear Tree.
+  all: split; intro H; brk; subst; simpl in *; try discriminate; try solve [firstorder eauto].
+Qed.
+
+(* ------------------------------------------------------------------------------------------------ consequences for slots *)
+
+Lemma PosSpec_mono : forall st p, PosSpec in_hierarchy st p -> PosSpec (fun _ => true) st p.
+Proof. unfold PosSpec, CompSpec. firstorder. Qed.
+
+Lemma pos_listed : forall st p, In p (map vpos (list_visits st)) -> In (snd p) (listed_slots st).
+Proof.
+  intros st p H. apply in_map_iff in H. destruct H as [v [<- Hv]]. unfold listed_slots. apply in_map_iff. exists v; auto.
+Qed.
+
+Lemma listed_pos : forall st slot, In slot (listed_slots st) -> exists k, In (k, slot) (map vpos (list_visits st)).
+Proof.
+  intros st slot H. apply in_map_iff in H. destruct H as [v [<- Hv]]. exists (v_kind v). apply in_map_iff. exists v; auto.
+Qed.
+
+Lemma assign_all_visits_listed : forall st v, In v (assign_all_visits st) -> In (v_slot v) (listed_slots st).
+Proof.
+  intros st v H. apply (pos_listed st (vpos v)). apply in_list_visits, PosSpec_mono, in_assign_all.
+  apply in_map; assumption.
+Qed.
+
+Lemma assign_type_visits_listed : forall st k v, In v (assign_type_visits st k) -> In (v_slot v) (listed_slots st).
+Proof.
+  intros st k v H. destruct (kind_eqb k KMath) eqn:E.
+  - apply kind_eqb_eq in E; subst. destruct H.
+  - apply (pos_listed st (vpos v)). apply in_list_visits, PosSpec_mono.
+    assert (Hk : k <> KMath) by (intro; subst; rewrite kind_eqb_refl in E; discriminate).
+    apply (in_assign_type st k (vpos v) Hk). apply in_map; assumption.
+Qed.
+
+Lemma assign_type_visits_kind : forall st k v, In v (assign_type_visits st k) -> v_kind v = k.
+Proof.
+  intros st k v H. destruct (kind_eqb k KMath) eqn:E.
+  - apply kind_eqb_eq in E; subst. destruct H.
+  - assert (Hk : k <> KMath) by (intro; subst; rewrite kind_eqb_refl in E; discriminate).
+    apply (in_map vpos) in H. apply (in_assign_type st k (vpos v) Hk) in H. exact (proj1 H).
+Qed.
+
+Lemma slots_in_range_listed : forall st n slot, slots_in_range st n = true -> In slot (listed_slots st) -> slot < n.
+Proof.
+  intros st n slot H Hin. unfold slots_in_range in H. rewrite forallb_forall in H.
+  apply Nat.ltb_lt. apply H. apply in_or_app; left; exact Hin.
+Qed.
+
+Lemma pos_nodup_In : forall l p, In p (pos_nodup l) <-> In p l.
+Proof.
+  induction l as [|q r IH]; intro p; simpl; [tauto|].
+  destruct (pos_mem q r) eqn:E.
+  - rewrite IH. split; [auto|]. intros [<-|H]; [apply pos_mem_In; assumption | assumption].
+  - simpl. rewrite IH. tauto.
+Qed.
+Lemma pos_nodup_NoDup : forall l, NoDup (pos_nodup l).
+Proof.
+  induction l as [|q r IH]; simpl; [constructor|].
+  destruct (pos_mem q r) eqn:E; [assumption|].
+  constructor; [|assumption]. rewrite pos_nodup_In. apply pos_mem_false; assumption.
+Qed.
+
+(* the annotator's listing meets exactly the positions of the independent traversal *)
+Lemma listing_positions : forall st p, In p (map vpos (list_visits st)) <-> In p (positions st).
+Proof.
+  intros st p. unfold positions. rewrite pos_nodup_In. unfold positions_raw.
+  rewrite in_list_visits, in_positions_gen. tauto.
+Qed.
+
+Lemma all_slots_cases : forall st slot, In slot (all_slots st) <-> In slot (listed_slots st) \/ In slot (math_slots st).
+Proof.
+  intros st slot. unfold all_slots. rewrite in_app_iff. split; intros [H|H]; auto; left.
+  - apply in_map_iff in H. destruct H as [p [<- Hp]]. apply pos_listed. apply listing_positions; assumption.
+  - destruct (listed_pos st slot H) as [k Hk]. apply listing_positions in Hk.
+    apply in_map_iff. exists (k, slot); auto.
+Qed.
+
+(* ------------------------------------------------------------------------------------------------ update / setModel / refresh keep the ids *)
+
+Lemma update_ids : forall c st s, s_ids (update c st s) = s_ids s.
+Proof.
+  intros; unfold update. destruct (negb (a_has_model (s_ann s))); [reflexivity|].
+  destruct (opt_str_eqb _ _); reflexivity.
+Qed.
+Lemma update_err : forall c st s, a_err (s_ann (update c st s)) = a_err (s_ann s).
+Proof.
+  intros; unfold update. destruct (negb (a_has_model (s_ann s))); [reflexivity|].
+  destruct (opt_str_eqb _ _); reflexivity.
+Qed.
+Lemma update_has_model : forall c st s, a_has_model (s_ann (update c st s)) = a_has_model (s_ann s).
+Proof.
+  intros; unfold update. destruct (negb (a_has_model (s_ann s))); [reflexivity|].
+  destruct (opt_str_eqb _ _); reflexivity.
+Qed.
+Lemma set_model_ids : forall c st s, s_ids (set_model c st s) = s_ids s.
+Proof. intros; unfold set_model. rewrite update_ids. reflexivity. Qed.
+Lemma set_model_err : forall c st s, a_err (s_ann (set_model c st s)) = a_err (s_ann s).
+Proof. intros; unfold set_model. rewrite update_err. reflexivity. Qed.
+Lemma pre_assign_ids : forall c st s, s_ids (pre_assign c st s) = s_ids s.
+Proof. intros; unfold pre_assign. destruct (fx_refresh c); reflexivity. Qed.
+Lemma pre_assign_err : forall c st s, a_err (s_ann (pre_assign c st s)) = a_err (s_ann s).
+Proof. intros; unfold pre_assign. destruct (fx_refresh c); reflexivity. Qed.
+
+(* ------------------------------------------------------------------------------------------------ the generic assignment theorem *)
+
+(* one statement for assignAllIds and assignIds(type): [s1] is the state the loops start from, [vs] the visits *)
+Section AssignSeq.
+  Variable st : structure.
+  Variable s1 : state.
+  Variable vs : list visit.
+  Hypothesis Hrange : slots_in_range st (length (s_ids s1)) = true.
+  Hypothesis Hvs : forall v, In v vs -> In (v_slot v) (listed_slots st).
+  Let s2 := assign_visits s1 vs.
+
+  Lemma seq_complete : forall v, In v vs -> get (s_ids s2) (v_slot v) <> "".
+  Proof.
+    intros v Hv. apply assign_visits_complete; [assumption|].
+    apply (slots_in_range_listed st); auto.
+  Qed.
+
+  Lemma seq_preserves : forall slot, get (s_ids s1) slot <> "" -> get (s_ids s2) slot = get (s_ids s1) slot.
+  Proof. intros; apply assign_visits_preserves; assumption. Qed.
+
+  Lemma seq_only_visited : forall slot, ~ In slot (map v_slot vs) -> get (s_ids s2) slot = get (s_ids s1) slot.
+  Proof. intros; apply assign_visits_untouched; assumption. Qed.
+
+  (* freshness, given that the id list covers the ids of the model when the loops start *)
+  Lemma seq_fresh : Covered (listed_slots st) s1 ->
+    forall slot, get (s_ids s1) slot = "" -> get (s_ids s2) slot <> "" ->
+      (forall slot', In slot' (listed_slots st) -> get (s_ids s1) slot' <> get (s_ids s2) slot) /\
+      (forall slot', In slot' (listed_slots st) -> slot' <> slot -> get (s_ids s2) slot' <> get (s_ids s2) slot).
+  Proof.
+    intros HC slot He Hne.
+    assert (Hvs' : forall v, In v vs -> In (v_slot v) (listed_slots st) /\ v_slot v < length (s_ids s1)).
+    { intros v Hv. split; [auto|]. apply (slots_in_range_listed st); auto. }
+    destruct (assign_visits_fresh (listed_slots st) vs s1 HC Hvs' slot He Hne) as [Hk Hd].
+    split; [|exact Hd].
+    intros slot' Hin Habs.
+    destruct (string_dec (get (s_ids s1) slot') "") as [E|E].
+    - rewrite E in Habs. fold s2 in Hne. congruence.
+    - apply Hk. fold s2. rewrite <- Habs. apply HC; assumption.
+  Qed.
+
+  (* ... and w.r.t. every id of the model, MathML included, when no MathML element carries an id *)
+  Lemma seq_fresh_all : Covered (listed_slots st) s1 ->
+    (forall m, In m (math_slots st) -> get (s_ids s1) m = "") ->
+    forall slot, get (s_ids s1) slot = "" -> get (s_ids s2) slot <> "" ->
+      (forall slot', In slot' (all_slots st) -> get (s_ids s1) slot' <> get (s_ids s2) slot) /\
+      (forall slot', In slot' (all_slots st) -> slot' <> slot -> get (s_ids s2) slot' <> get (s_ids s2) slot).
+  Proof.
+    intros HC Hmath slot He Hne. destruct (seq_fresh HC slot He Hne) as [F1 F2].
+    split; intros slot' Hin.
+    - apply all_slots_cases in Hin. destruct Hin as [Hin|Hin]; [apply F1; assumption|].
+      rewrite (Hmath slot' Hin). fold s2 in Hne. congruence.
+    - intro Hd. apply all_slots_cases in Hin. destruct Hin as [Hin|Hin]; [apply F2; assumption|].
+      destruct (in_dec Nat.eq_dec slot' (listed_slots st)) as [Hl|Hl]; [apply F2; assumption|].
+      rewrite seq_only_visited.
+      + rewrite (Hmath slot' Hin). fold s2 in Hne. congruence.
+      + intro Hv. apply Hl. apply in_map_iff in Hv. destruct Hv as [v [<- Hv]]. apply Hvs; assumption.
+  Qed.
+End AssignSeq.
